@@ -17,11 +17,20 @@ def generate():
     pats = re.findall(r'QStringLiteral\("((?:[^"\\]|\\.)*)"\)', frf)
     need(len(pats) == 2, 'findRotatedFiles: two name patterns (empty / non-empty suffix)')
     datepart = r'\\\\\.\(?\\\\d\{4\}-\\\\d\{2\}-\\\\d\{2\}\)?\\\\\.\(?\\\\d\+\)?'
-    anchored = all(p.startswith('^') and p.endswith('$') for p in pats)
-    gz_opt = all(p.endswith('(\\\\.gz)?$') or p.endswith('(\\\\.gz)?') for p in pats)
-    need(re.fullmatch(r'\^?%1' + datepart + r'\(\\\\\.gz\)\?\$?', pats[0]),
+    END = '\\\\z'          # the C++ text \\\\z = the regex \\z: the very end of the subject (`$` would also match before a final LF)
+
+    def core(p):
+        """pattern text without its anchors"""
+        p = p[1:] if p.startswith('^') else p
+        for e in (END, '$'):
+            if p.endswith(e):
+                return p[:-len(e)]
+        return p
+    anchored = all(p.startswith('^') and p.endswith(END) for p in pats)
+    gz_opt = all(core(p).endswith('(\\\\.gz)?') for p in pats)
+    need(re.fullmatch(r'%1' + datepart + r'\(\\\\\.gz\)\?', core(pats[0])),
          'findRotatedFiles: pattern for an empty suffix  base\\.DATE\\.(\\d+)(\\.gz)?  (got %r)' % pats[0])
-    need(re.fullmatch(r'\^?%1' + datepart + r'\\\\\.%2\(\\\\\.gz\)\?\$?', pats[1]),
+    need(re.fullmatch(r'%1' + datepart + r'\\\\\.%2\(\\\\\.gz\)\?', core(pats[1])),
          'findRotatedFiles: pattern for a non-empty suffix  base\\.DATE\\.(\\d+)\\.suffix(\\.gz)?  (got %r)' % pats[1])
     esc_frf = len(re.findall(r'QRegularExpression::escape\((baseName|suffix)\)', frf)) == 3
     need(re.search(r'dir\.entryList\(QDir::Files', frf), 'findRotatedFiles: QDir::entryList(QDir::Files...)')
@@ -80,10 +89,10 @@ def generate():
     fni = _flat(fn_body(src, 'int findNextIndexForDate'))
     ip = re.findall(r'QStringLiteral\("((?:[^"\\]|\\.)*)"\)', fni)
     need(len(ip) == 3 and ip[0] == 'yyyy-MM-dd', 'findNextIndexForDate: date format + two patterns')
-    need(re.fullmatch(r'\^?%1\\\\\.%2\\\\\.\(\\\\d\+\)\(\\\\\.gz\)\?\$?', ip[1]) and
-         re.fullmatch(r'\^?%1\\\\\.%2\\\\\.\(\\\\d\+\)\\\\\.%3\(\\\\\.gz\)\?\$?', ip[2]),
+    need(re.fullmatch(r'%1\\\\\.%2\\\\\.\(\\\\d\+\)\(\\\\\.gz\)\?', core(ip[1])) and
+         re.fullmatch(r'%1\\\\\.%2\\\\\.\(\\\\d\+\)\\\\\.%3\(\\\\\.gz\)\?', core(ip[2])),
          'findNextIndexForDate: patterns base\\.DATE\\.(\\d+)[\\.suffix](\\.gz)?')
-    anchored = anchored and all(p.startswith('^') and p.endswith('$') for p in ip[1:])
+    anchored = anchored and all(p.startswith('^') and p.endswith(END) for p in ip[1:])
     gz_opt = gz_opt and all('(\\\\.gz)?' in p for p in ip[1:])
     esc_fni = len(re.findall(r'QRegularExpression::escape\((baseName|dateStr|suffix)\)', fni)) == 5
     idx_max1 = bool(re.search(r'auto maxIndex = 0;', fni) and
